@@ -58,6 +58,13 @@ Theorem C14_response_bytes_any_framing :
 Proof. exact response_bytes_any_framing. Qed.
 Print Assumptions C14_response_bytes_any_framing.
 
+(* a host body that ends in an ERROR (the host connection fails mid-body) reaches the client as
+   an aborted transfer, never as a well-terminated shorter body *)
+Theorem C14_truncation_not_hidden :
+  forall r : response, s_aborted (client_resp_of r) = s_aborted r.
+Proof. exact truncation_not_hidden. Qed.
+Print Assumptions C14_truncation_not_hidden.
+
 (* response head: status and all headers preserved (values and order); only the marker name
    is added / replaced, and it carries exactly the marker value *)
 Theorem C14_response_head :
@@ -150,7 +157,7 @@ Example C14_nonvacuous :
   to_be true 2 1 = 256 /\
   (let r := {| s_status := 404;
                s_headers := of_wire [([120], [49]); (auth_header, [104]); ([120], [50])];
-               s_frames := [FData [1]; FData []; FData [2; 3]] |} in
+               s_frames := [FData [1]; FData []; FData [2; 3]]; s_aborted := false |} in
    s_headers (client_resp_of r) = [([120], [49]); ([120], [50]); (auth_header, marker_value)] /\
    body_of (s_frames (client_resp_of r)) = [1; 2; 3] /\ s_status (client_resp_of r) = 404).
 Proof.
